@@ -18,6 +18,7 @@
 #include <cgreen/breadcrumb.h>
 #include <fcntl.h>
 #include <signal.h>
+#include <stdarg.h>
 #include <stdio.h>
 #include <stdlib.h>
 #include <string.h>
@@ -28,14 +29,27 @@ using namespace cgreen;
 #endif
 
 extern TestReporter *create_libxml_reporter(const char *prefix);
+/* the reporters' internal printer hooks (src/xml_reporter_internal.h, src/libxml_reporter_internal.h): what their own unit
+ * tests use; here they let suites nest deeper than a per-suite file name (NAME_MAX) allows */
+extern void set_xml_reporter_printer(TestReporter *reporter, int (*printer)(FILE *, const char *format, ...));
+extern void set_libxml_reporter_printer(TestReporter *reporter, int (*printer)(void *doc));
+static FILE *printer_file;
+static int file_printer(FILE *out, const char *format, ...) {
+    va_list ap; (void)out;
+    va_start(ap, format);
+    int n = vfprintf(printer_file, format, ap);
+    va_end(ap);
+    return n;
+}
+static int doc_printer(void *doc) { (void)doc; return 0; }
 
 #define MAXT 1024
-#define MAXS 1024
+#define MAXS 2048
 #define MAXA 400000
 
 typedef struct { char kind; int arg; } ActC;      /* P F S p(MP) f(MF) K E U Z */
 typedef struct {
-    char path[8192];
+    char path[16384];
     char name[6000];
     int xskip, ctx;
     ActC *body, *setup, *teardown;
@@ -171,7 +185,7 @@ int main(int argc, char **argv) {
     for (int i = 0; i < 256; i++) { char nm[16]; snprintf(nm, sizeof nm, "mf%d", i); mock_names[i] = strdup(nm); }
 
     TestSuite *stack[MAXS];
-    static char paths[MAXS][8192];
+    static char paths[MAXS][16384];
     int sp = 0;
     TestSuite *root = NULL;
     char mode[256] = "fork";
@@ -226,6 +240,8 @@ int main(int argc, char **argv) {
     else if (!strcmp(reporter_kind, "cute")) reporter = create_cute_reporter();
     else if (!strcmp(reporter_kind, "xml")) reporter = create_xml_reporter("xml");
     else if (!strcmp(reporter_kind, "libxml")) reporter = create_libxml_reporter("xml");
+    else if (!strcmp(reporter_kind, "xmlp")) { reporter = create_xml_reporter("xml"); printer_file = fopen("xmlp.out", "w"); set_xml_reporter_printer(reporter, &file_printer); }
+    else if (!strcmp(reporter_kind, "libxmlp")) { reporter = create_libxml_reporter("xml"); set_libxml_reporter_printer(reporter, &doc_printer); }
     else if (!strcmp(reporter_kind, "cdash")) {
         cdash.name = (char *)"n"; cdash.build = (char *)"b"; cdash.type = (char *)"t"; cdash.hostname = (char *)"h";
         cdash.os_name = (char *)"o"; cdash.os_platform = (char *)"p"; cdash.os_release = (char *)"r"; cdash.os_version = (char *)"v";
